@@ -42,13 +42,13 @@ import (
 const interval = time.Hour
 
 type action struct {
-	Kind string `json:"kind"` // sleep | wake | finish | fire | enter | pollend | pollcall | stop-load | stop-start | crash-load | crash-start
+	Kind string `json:"kind"` // sleep | wake | finish | fire | enter | pollend | pollfail (OnPoll returns an error) | pollcall | stop-load | stop-start | crash-load | crash-start
 	Idx  int    `json:"idx,omitempty"`
 }
 
 func (a action) String() string {
 	switch a.Kind {
-	case "finish", "pollend", "enter":
+	case "finish", "pollend", "pollfail", "enter":
 		return fmt.Sprintf("%s%d", a.Kind, a.Idx)
 	}
 	return a.Kind
@@ -82,6 +82,7 @@ type world struct {
 	reqGate    chan struct{}
 	pollGates  []chan struct{}
 	pollOpen   []bool
+	pollFail   []bool // the OnPoll callback returns an error when released
 	enterGates []chan struct{}
 	enterOpen  []bool
 	starting   int // requester being started (its goroutine id for the callback)
@@ -179,8 +180,16 @@ func runCase(t *testing.T, dir string, cs *caseSpec) (out []obs, done []action, 
 						g := make(chan struct{})
 						w.pollGates = append(w.pollGates, g)
 						w.pollOpen = append(w.pollOpen, true)
+						w.pollFail = append(w.pollFail, false)
+						k := len(w.pollGates) - 1
 						w.mu.Unlock()
 						<-g
+						w.mu.Lock()
+						fail := w.pollFail[k]
+						w.mu.Unlock()
+						if fail {
+							return fmt.Errorf("poll failed (harness)")
+						}
 						return nil
 					},
 					OnPollEnd: func() error {
@@ -257,7 +266,7 @@ func runCase(t *testing.T, dir string, cs *caseSpec) (out []obs, done []action, 
 					return w.inCb == -1
 				case "enter":
 					return a.Idx >= 0 && a.Idx < len(w.enterOpen) && w.enterOpen[a.Idx]
-				case "pollend":
+				case "pollend", "pollfail":
 					return w.inCb == -1 && a.Idx >= 0 && a.Idx < len(w.pollOpen) && w.pollOpen[a.Idx]
 				}
 				return false
@@ -313,10 +322,11 @@ func runCase(t *testing.T, dir string, cs *caseSpec) (out []obs, done []action, 
 					w.enterOpen[a.Idx] = false
 					w.mu.Unlock()
 					close(g)
-				case "pollend":
+				case "pollend", "pollfail":
 					w.mu.Lock()
 					g := w.pollGates[a.Idx]
 					w.pollOpen[a.Idx] = false
+					w.pollFail[a.Idx] = a.Kind == "pollfail"
 					w.mu.Unlock()
 					close(g)
 					time.Sleep(2 * time.Millisecond)
@@ -363,7 +373,7 @@ func runCase(t *testing.T, dir string, cs *caseSpec) (out []obs, done []action, 
 				cands = append(cands, action{Kind: "enter", Idx: k})
 			}
 			for k := 0; k < nPoll; k++ {
-				cands = append(cands, action{Kind: "pollend", Idx: k})
+				cands = append(cands, action{Kind: "pollend", Idx: k}, action{Kind: "pollfail", Idx: k})
 			}
 			for _, a := range cands {
 				if isEnabled(a) {
@@ -675,7 +685,7 @@ func monitor(c *vh.Ctx, cs *caseSpec, out []obs) {
 			}
 			return false
 		}
-		if a.Kind == "pollend" && a.Idx < len(entered) && staleSince(entered[a.Idx]) &&
+		if (a.Kind == "pollend" || a.Kind == "pollfail") && a.Idx < len(entered) && staleSince(entered[a.Idx]) &&
 			(len(o.Log) != len(prev.Log) || o.State != prev.State || o.Writes != prev.Writes) {
 			c.Fail("stale-poll-effect-after-wake", fmt.Sprintf("action %d: poll %d began at action %d, a wake completed since, yet ending it changed state %d -> %d, callbacks %v -> %v, state file written: %v",
 				i, entered[a.Idx], pollStart[entered[a.Idx]], prev.State, o.State, prev.Log, o.Log, o.Writes != prev.Writes), cs)
@@ -782,7 +792,7 @@ func TestVerif(t *testing.T) {
 		cs := &caseSpec{}
 		for _, w := range strings.Fields(s) {
 			a := action{Kind: w}
-			for _, pre := range []string{"finish", "pollend", "enter"} {
+			for _, pre := range []string{"finish", "pollend", "pollfail", "enter"} {
 				if strings.HasPrefix(w, pre) {
 					a.Kind = pre
 					fmt.Sscan(w[len(pre):], &a.Idx)
@@ -875,6 +885,9 @@ func TestVerif(t *testing.T) {
 			"sleep finish0 fire enter0 wake finish1 sleep finish2 fire enter1 pollend0 pollend1",
 			// wake during a poll, poll ends awake
 			"sleep finish0 fire enter0 wake finish1 pollend0",
+			// ... and the OnPoll callback fails after the wake has completed
+			"sleep finish0 fire enter0 wake finish1 pollfail0",
+			"sleep finish0 fire enter0 pollfail0 fire enter1 wake finish1 sleep finish2 pollfail1",
 			// the wake completes between Poll's unlock and the OnPoll call
 			"sleep finish0 fire wake finish1 enter0 pollend0",
 			// plain cycle
@@ -925,7 +938,7 @@ func TestVerif(t *testing.T) {
 				// witnesses and the random schedules
 				var keep []action
 				for _, a := range en {
-					if a.Kind != "stop-start" && a.Kind != "crash-load" {
+					if a.Kind != "stop-start" && a.Kind != "crash-load" && a.Kind != "pollfail" {
 						keep = append(keep, a)
 					}
 				}
@@ -967,7 +980,7 @@ func TestVerif(t *testing.T) {
 						}
 					case "finish":
 						fin = append(fin, a)
-					case "pollend":
+					case "pollend", "pollfail":
 						pe = append(pe, a)
 					default:
 						other = append(other, a)
